@@ -13,4 +13,27 @@ PROPS = {
         "trusted_base": ["regexp (beyond the literal/alternation/digits subset interpreted in Lean), strconv.Atoi modelled from its documentation",
                          "elton middleware glue"],
     },
+    "C06": {
+        "suites": [{"name": "key", "quick": 6000, "thorough": 100000, "thorough_seeds": 3},
+                   {"name": "disp", "stateful": True, "quick": 60, "thorough": 600, "thorough_seeds": 3}],
+        "rule": "key: pairs of (method, host, uri) triples (equal, or differing in exactly one component: GET/HEAD, host/port/"
+                "case, one byte of the query, trailing ?/&, extra slash) through the real middleware chain with a self-identifying "
+                "upstream; the key bytes are observed at the recording store. disp: op sequences (get/purge/put) on two real "
+                "dispatchers with near-identical keys and real MemHash values. non-trivial = every pair / every get or purge; "
+                "distinct = distinct input fields.",
+        "assumptions": ["methods and hosts contain no space (net/http rejects them)",
+                        "the zero-copy map key is safe because the key buffer is freshly allocated and never written again (extracted fact keyFreshBuffer; aliasing itself is outside a value-semantic model)"],
+        "trusted_base": ["groupcache lru modelled from its source and compared in the disp suite", "runtime.memhash as an arbitrary function"],
+    },
+    "C11": {
+        "suites": [{"name": "disp", "stateful": True, "quick": 120, "thorough": 1500, "thorough_seeds": 3}],
+        "rule": "disp: for sizes 1..12,15..17,…,1023..1025,2000,0,-5 and random 1..300: sequences of 3*S+40 lookups/purges over a "
+                "key population of 1.5*S (40% on a hot quarter), judged op by op against the LRU model (entry identity = first-seen "
+                "index), resident count read by reflection at the end. non-trivial = get/purge/count lines; distinct = distinct lines.",
+        "assumptions": ["lookups and purges of one shard are serialised by the shard mutex (extracted lock facts, C20)"],
+        "trusted_base": ["groupcache lru modelled from its source and compared in the disp suite"],
+    },
 }
+
+NOT_APPLICABLE = {}
+HOOK_COMMITS = ["ca43a57", "6332ff2"]
